@@ -188,7 +188,8 @@ class DatasetRef(object):
             r = s if row_of is None else row_of[s]
             cols = g.tf_ind[g.stemplates[s]]
             for j, k in enumerate(cols):
-                out[a, int(k)] = g.tfeatures[r, j]
+                if int(k) >= 0:
+                    out[a, int(k)] = g.tfeatures[r, j]
         return out
 
 
